@@ -35,7 +35,9 @@ REQUIRED_BUILD = ["KV.C03ProbingBuild.insert_capacity_probingSize", "KV.C03Probi
                   "KV.C03ProbingBuild.probing_end_to_end_partial",
                   "KV.C03ProbingBuild.probing_build_represents_closed", "KV.C03ProbingBuild.probing_end_to_end_closed",
                   "KV.C03ProbingBuild.demoClosed_ok", "KV.C03ProbingBuild.blank_invariant_closed_line",
-                  "KV.C03ProbingBuild.probing_blank1_step_partial"]
+                  "KV.C03ProbingBuild.probing_blank1_step_partial",
+                  "KV.C03ProbingBuild.probing_build_represents_blank1", "KV.C03ProbingBuild.probing_end_to_end_blank1",
+                  "KV.C03ProbingBuild.probing_build_represents_single", "KV.C03ProbingBuild.probing_end_to_end_single"]
 
 KEY_QUANT = "quant-distinct-values-but-count-exceeds-bins"
 KEY_BB1 = "quant-backoff-bits-1-overflow"
